@@ -22,7 +22,7 @@ import (
 )
 
 // behaviours of a child process
-var Behaviours = []string{"exit0", "exit3", "sigusr1", "trapterm", "ignoreterm", "fork", "forkignore", "orphan0", "orphanq"}
+var Behaviours = []string{"exit0", "exit3", "exit137", "sigusr1", "trapterm", "ignoreterm", "fork", "forkignore", "orphan0", "orphanq"}
 
 func script(beh, dir, name string, delayMs int) string {
 	pre := fmt.Sprintf("echo $$ > %s/%s.pid; ", dir, name)
@@ -32,6 +32,8 @@ func script(beh, dir, name string, delayMs int) string {
 		return pre + "sleep " + d + "; echo bye; exit 0"
 	case "exit3":
 		return pre + "sleep " + d + "; echo bye; exit 3"
+	case "exit137":
+		return pre + "sleep " + d + "; exit 137"
 	case "sigusr1":
 		return pre + "sleep " + d + "; kill -USR1 $$; sleep 5"
 	case "trapterm":
@@ -155,7 +157,7 @@ func Run(opt Options) []rec.Event {
 		delay := []int{0, 30, 80, 5000}[rnd.Intn(4)]
 		ops := rnd.Intn(5)
 		if opt.Burst {
-			beh, delay, ops = []string{"exit0", "exit3"}[rnd.Intn(2)], 0, 0
+			beh, delay, ops = []string{"exit0", "exit3", "exit137"}[rnd.Intn(3)], 0, 0
 		}
 		if i < len(opt.Fixed) {
 			beh, delay, ops = opt.Fixed[i].Beh, opt.Fixed[i].Delay, 0
